@@ -5,7 +5,7 @@
 (* The ES algorithms are transcribed from ECMA-262: IsLooselyEqual 7.2.14, *)
 (* IsStrictlyEqual 7.2.15, IsLessThan 7.2.13, ToNumber 7.1.4, ToString.    *)
 (***************************************************************************)
-EXTENDS JsString
+EXTENDS NumText
 
 \* ---- ToString (JS): null "null" but "" inside arrays; arrays comma-joined; objects "[object Object]";
 \* a number's string form is its JSON text
@@ -13,7 +13,7 @@ RECURSIVE ToStringJS(_), JoinElems(_, _)
 ToStringJS(v) ==
   CASE v.t = "z" -> S_null
     [] v.t = "b" -> IF v.v THEN S_true ELSE S_false
-    [] v.t = "n" -> v.x
+    [] v.t = "n" -> NumText(v)
     [] v.t = "s" -> v.v
     [] v.t = "a" -> JoinElems(v.v, 1)
     [] v.t = "o" -> S_objobj
